@@ -167,7 +167,22 @@ class Engine:
             out[k] = _model_value(m, v)
         return out
 
-    def prove(self, label, claim, note=None):
+    def check_tactic(self, tactic, *extra):
+        """one-off query through a z3 tactic pipeline (e.g. 'qfnra-nlsat' for polynomial identities, where the
+        default arithmetic solver returns unknown): pc /\\ extra"""
+        t = time.time()
+        s2 = z3.Tactic(tactic).solver()
+        s2.set("timeout", self.timeout_ms)
+        for a in self.solver.assertions():
+            s2.add(a)
+        s2.add(*extra)
+        r = s2.check()
+        self._last_model = s2.model() if r == z3.sat else None
+        self.t_solver += time.time() - t
+        self.n_checks += 1
+        return r
+
+    def prove(self, label, claim, note=None, tactic=None):
         """Query pc /\\ not claim.  Records the verdict; returns True iff unsat."""
         claim = unwrap(claim)
         if claim is True:
@@ -181,11 +196,11 @@ class Engine:
             neg = z3.BoolVal(True)
         else:
             neg = z3.Not(claim)
-        r = self.check(neg)
+        r = self.check(neg) if tactic is None else self.check_tactic(tactic, neg)
         rec = {"label": label, "path": self.cur_path, "note": note}
         if r == z3.unsat:
             # reachability twin: the path condition itself must be satisfiable
-            r0 = self.check()
+            r0 = self.check() if tactic is None else self.check_tactic(tactic)
             rec["verdict"] = "unsat" if r0 == z3.sat else ("vacuous" if r0 == z3.unsat else "unknown")
         elif r == z3.sat:
             m = self._last_model
